@@ -235,7 +235,34 @@ func writeJSONServerState(stateDir string, js *jsonServerState) error {
 	if encoded, err = json.Marshal(js); err != nil {
 		return err
 	}
-	return os.WriteFile(path.Join(stateDir, stateFile), encoded, 0o600)
+	return writeFileAtomic(path.Join(stateDir, stateFile), encoded)
+}
+
+// writeFileAtomic replaces the file at fPath with data by writing a temporary
+// file in the same directory and renaming it into place, so that a crash or
+// a full disk midway never leaves a truncated file where the only copy of the
+// bridge's identity used to be.
+func writeFileAtomic(fPath string, data []byte) error {
+	f, err := os.CreateTemp(path.Dir(fPath), path.Base(fPath)+".tmp")
+	if err != nil {
+		return err
+	}
+	tmpPath := f.Name()
+
+	_, err = f.Write(data)
+	if err == nil {
+		err = f.Sync()
+	}
+	if cerr := f.Close(); err == nil {
+		err = cerr
+	}
+	if err == nil {
+		err = os.Rename(tmpPath, fPath)
+	}
+	if err != nil {
+		_ = os.Remove(tmpPath)
+	}
+	return err
 }
 
 func newBridgeFile(stateDir string, st *obfs4ServerState) error {
